@@ -21,7 +21,7 @@ ASSUMPTIONS = [
     "single-threaded: the bytes read right after an answer are the bytes the answer was about",
 ]
 MONITORS = "every (meta, hash) obtained through the state cache or carried over by update() compared with hashlib at the same instant"
-REQUIRED_COUNTERS = ["index_md5_on_reused_index", "memfs_batched_queries", "failed_link_checkouts", "failed_create_index_checkouts", "large_file_cases", "index_update_with_reloaded_old_index", "racing_writer_queries", "symlinked_files", "answers_checked", "state_hits_checked", "mutations", "get_vs_get_many_compared", "staging_listings_checked", "index_md5_checked",
+REQUIRED_COUNTERS = ["index_update_with_swap_during_md5", "index_md5_on_reused_index", "memfs_batched_queries", "failed_link_checkouts", "failed_create_index_checkouts", "large_file_cases", "index_update_with_reloaded_old_index", "racing_writer_queries", "symlinked_files", "answers_checked", "state_hits_checked", "mutations", "get_vs_get_many_compared", "staging_listings_checked", "index_md5_checked",
                      "index_update_carried_checked", "injected_rows", "memfs_queries", "batch_boundary_cases", "mutations_between_queries", "ext4_cases"]
 
 ALGOS = ["md5", "sha256", "md5-dos2unix", "blake3"]
@@ -342,6 +342,32 @@ def run_shard(ctx):
                         pk = os.path.join(wdir, *k)
                         if e.hash_info and os.path.isfile(pk):
                             verify(pk, e.hash_info.name, e.hash_info.value, how_)
+                elif q == "index_update" and paths and rng.random() < 0.25:
+                    # between building the old index and hashing it, a file is moved away and other bytes of the same size sit at its
+                    # path; afterwards the original file is moved back (its inode, mtime and size are what the old index recorded)
+                    res.count("index_update_with_swap_during_md5")
+                    built = ibuild(wdir, fs)
+                    cands = [p for p in paths if not os.path.islink(p) and cur[p]]
+                    swapped = rng.sample(cands, min(len(cands), rng.randrange(1, 3)))
+                    for p in swapped:
+                        os.replace(p, p + ".verif-away")
+                        with open(p, "wb") as f:
+                            f.write(bytes((b + 5) % 256 for b in cur[p]))
+                    hashed = imd5(built, state=state if rng.random() < 0.5 else None)
+                    for p in swapped:
+                        os.replace(p + ".verif-away", p)
+                    hist.append(["mutate", "swap-away-and-back-around-md5", ",".join(os.path.basename(p) for p in swapped)])
+                    new = ibuild(wdir, fs)
+                    iupdate(new, hashed)
+                    note_query(paths)
+                    for k, e in new.iteritems():
+                        if e.hash_info:
+                            res.count("index_update_carried_checked")
+                            verify(os.path.join(wdir, *k), e.hash_info.name, e.hash_info.value, "index.update/swap-around-md5")
+                    # the state must not have been left with rows that vouch the other bytes for the restored files
+                    for p in swapped:
+                        _m, hi = hash_file(p, fs, "md5", state=state)
+                        verify(p, "md5", hi.value, "hash_file/after-swap-around-md5")
                 elif q == "index_update" and paths:
                     old = imd5(ibuild(wdir, fs), state=state)
                     changed = []
